@@ -2,6 +2,7 @@ pub mod chain;
 pub mod events;
 pub mod e1;
 pub mod e1c;
+pub mod e1o;
 pub mod e2;
 pub mod sched;
 pub mod gen;
